@@ -190,6 +190,7 @@ def execute(scn):
     explicit["decisions"] = taken
     counters = {
         "kind:" + kind: 1,
+        "link_model:" + scn.get("sched", {}).get("model", "adversarial" if "sched" in scn else "script"): 1,
         "opt:q%d_v%d" % (q, o["validate"]): 1,
         "frames_delivered": sum(1 for e in events if e[0] == "frame"),
         "lib_exceptions_raised": nraise,
@@ -221,7 +222,7 @@ def execute(scn):
             "scn_d64": d64((items, kind, scn["bufsize"], scn.get("rawbuf"), scn.get("encoding"), taken, sorted(o.items()), scn.get("driver"), max_none, scn.get("resume"))),
             "counters": counters,
             "sets": sets,
-            "sim_seconds": 0.0,
+            "sim_seconds": float(getattr(decider, "now", 0.0)),
         },
     }
 
